@@ -81,6 +81,22 @@ CLAIMED = {
                 "differential runs.",
         "technique": "Coq proof (invariant by induction over the request list, projection lemma) + correspondence by vm_compute",
     },
+    "C05": {
+        "text": "Theorems (Props/C05.v): isolation — on the World model, for every rule set and every history of "
+                "builds/exits/clock advances, a build with batch n while k entries are in flight is admitted iff "
+                "k + n <= T for every rule, a rejection is an Isolation block naming a rule whose bound is "
+                "exceeded and carrying k, and (batch >= 1) in-flight never exceeds any threshold. Hotspot "
+                "concurrency — on the hotspot model, for every concurrency rule with thresholds/overrides >= 1 and "
+                "every history (positional/keyed/negative-index/missing parameters), a build with value v is "
+                "admitted iff (open entries with v) + 1 <= T_v (override replaces T for that value only), a "
+                "rejection names the rule, and open entries per value never exceed T_v. Both predicates are "
+                "evaluated on implementation traces.",
+        "design_ref": "DESIGN.md §6 C05",
+        "note": "Trusted: as C01/C06. The hotspot entry counts as one regardless of batch (as the code and "
+                "upstream Sentinel do); a concurrency threshold or override of 0 is outside the statement "
+                "(first sight of a value always passes).",
+        "technique": "Coq proof (world/ghost invariant; counter = number of open entries per value) + correspondence by vm_compute",
+    },
 }
 
 REASON_TODO = "not yet covered by the Coq development in this revision (planned, see DESIGN.md §6); no check is claimed"
